@@ -1,10 +1,14 @@
 #!/bin/bash
-# try_seed.sh <patch.diff> <Cnn> [extra check args]: apply a seeded change to /repo, run the check, undo it.
-patch=$1; prop=$2; shift 2
-cd /repo || exit 9
-git diff --quiet || { echo "/repo is dirty; refusing"; exit 9; }
-git apply "$patch" 2>/dev/null || git apply -3 "$patch" 2>/dev/null || patch -p1 -s < "$patch" || { echo "patch does not apply"; git checkout -- . ; exit 9; }
-git reset -q
-trap 'git -C /repo checkout -- . ; git -C /repo clean -fdq' EXIT
-cd /verif && timeout ${TRY_TIMEOUT:-1500} ./check $prop "$@"
-echo "check-exit=$?"
+# try_seed.sh <seed-dir-or-patch> <Cnn> [check args]: run a check against a scratch worktree of /repo HEAD
+# with the seeded change applied. Never touches /repo's working tree or the committed evidence.
+src=$1; prop=$2; shift 2
+[ -d "$src" ] && patch=$src/patch.diff || patch=$src
+tag=$(basename $(dirname $(readlink -f $patch)))-$prop-$$
+wt=/tmp/try-wt-$tag
+out=/tmp/try-out-$tag
+git -C /repo worktree add --detach $wt HEAD >/dev/null 2>&1 || { echo "worktree failed"; exit 9; }
+trap 'git -C /repo worktree remove --force '$wt' >/dev/null 2>&1; git -C /repo worktree prune; rm -rf '$out'/.build' EXIT
+( cd $wt && ( git apply "$patch" 2>/dev/null || git apply -3 "$patch" 2>/dev/null || patch -p1 -s < "$patch" ) ) || { echo "patch does not apply"; exit 9; }
+mkdir -p $out
+cd /verif && VERIF_REPO=$wt VERIF_OUT=$out timeout ${TRY_TIMEOUT:-2400} ./check $prop "$@" 2>&1 | grep -v "^  test=" | tail -${TRY_TAIL:-4}
+echo "check-exit=${PIPESTATUS[0]} out=$out"
